@@ -1,0 +1,14 @@
+//go:build verif
+
+// Contracts for the gocv verifier (comment-only file; see /verif/DESIGN.md §4).
+package cache
+
+//@ func (c *Cache) Get
+//@   nobody
+//@   log cacheGet
+//@   requires c != nil
+
+//@ func (c *Cache) Store
+//@   nobody
+//@   log cacheStore
+//@   requires c != nil
